@@ -226,9 +226,10 @@ var c11Offered = []c11Lines{
 	{"two-lines-rev", []string{"echo", "chat"}},
 	{"three-lines", []string{"echo", "foo", "bar"}},
 	{"mixed-case-pair", []string{"v1.chat, v2.Chat"}},
+	{"punctuation-lookalike", []string{"chat~2, echo"}}, // '~' and '^' differ in the bit that separates the two letter cases
 }
 
-var c11Supported = [][]string{nil, {"echo"}, {"echo", "chat"}, {"foo"}, {"ECHO"}, {"v2.Chat", "v1.chat"}}
+var c11Supported = [][]string{nil, {"echo"}, {"echo", "chat"}, {"foo"}, {"ECHO"}, {"v2.Chat", "v1.chat"}, {"chat^2", "echo"}}
 
 // dimensions, least significant first (simplest values first in every dimension)
 var c11Dims = []int{len(c11Offered), len(c11Supported), len(c11Keys), len(c11Versions), len(c11Upgrades), len(c11Connections), len(c11Protos), len(c11Methods)}
